@@ -77,6 +77,24 @@ XMC_TEST(self_sb_sc, "store buffering, seq_cst: r1=r2=0 never") {
   join_all();
   if (r[0] == 0 && r[1] == 0) fail("ORACLE", "store buffering outcome r1=r2=0");
 }
+XMC_TEST(self_sb_mixed, "store buffering with a release store on one side (seq_cst elsewhere): r1=r2=0 is C++11-legal, reachable only in wmm") {
+  auto* x = new std::atomic<int>(0);
+  auto* y = new std::atomic<int>(0);
+  int* r = new int[2]{-1, -1};
+  spawn([=] { x->store(1, std::memory_order_release); r[0] = y->load(std::memory_order_seq_cst); });
+  spawn([=] { y->fetch_add(1, std::memory_order_seq_cst); r[1] = x->load(std::memory_order_seq_cst); });
+  join_all();
+  if (r[0] == 0 && r[1] == 0) fail("ORACLE", "store buffering outcome r1=r2=0");
+}
+XMC_TEST(self_sc_store_fence, "seq_cst store, then seq_cst fence + relaxed load on the other side: the load sees the store (29.3p6)") {
+  auto* x = new std::atomic<int>(0);
+  auto* y = new std::atomic<int>(0);
+  int* r = new int[2]{-1, -1};
+  spawn([=] { x->store(1, std::memory_order_seq_cst); r[0] = y->load(std::memory_order_seq_cst); });
+  spawn([=] { y->store(1, std::memory_order_seq_cst); std::atomic_thread_fence(std::memory_order_seq_cst); r[1] = x->load(std::memory_order_relaxed); });
+  join_all();
+  if (r[0] == 0 && r[1] == 0) fail("ORACLE", "outcome r1=r2=0 is forbidden");
+}
 XMC_TEST(self_sb_fence, "store buffering with seq_cst fences: r1=r2=0 never") {
   auto* x = new std::atomic<int>(0);
   auto* y = new std::atomic<int>(0);
